@@ -243,3 +243,102 @@ func decName(cs []*types.Const, dec map[int64]int64, k int64) string {
 	}
 	return "nothing (falls through to another case)"
 }
+
+// RunFDSelectFill: the format 0 form of FDSelect is one byte per glyph behind
+// the format byte.  In FDSelectFn.encode the buffer made for it is filled by
+// a loop whose every iteration stores, at counter+1, the converted result of
+// the selector applied to that same counter.
+func RunFDSelectFill(w *World, r *Report) {
+	r.Rule("fdselectfill: in FDSelectFn.encode every iteration of the loop over the glyphs that follows the allocation of the format 0 buffer stores byte(fdSelect(i)) at offset i+1 for the loop counter i: no glyph keeps the zero the buffer was made with")
+	fn := w.Func("(cff.FDSelectFn).encode")
+	if fn == nil {
+		r.Fatal("(cff.FDSelectFn).encode does not resolve")
+		return
+	}
+	key := r.MkKey("fdselectfill", fnName(fn), "format 0 table")
+	loops := naturalLoops(fn)
+	for _, b := range fn.Blocks {
+		for _, in := range b.Instrs {
+			ms, ok := in.(*ssa.MakeSlice)
+			if !ok {
+				continue
+			}
+			// stores into this buffer at counter+1
+			for _, b2 := range fn.Blocks {
+				for _, in2 := range b2.Instrs {
+					st, ok := in2.(*ssa.Store)
+					if !ok {
+						continue
+					}
+					ia, ok := st.Addr.(*ssa.IndexAddr)
+					if !ok || !valueReaches(ia.X, ms) {
+						continue
+					}
+					add, ok := ia.Index.(*ssa.BinOp)
+					if !ok || add.Op != token.ADD {
+						continue
+					}
+					if one, isC := bconstInt(add.Y); !isC || one != 1 {
+						continue
+					}
+					ctr := add.X
+					// value: conversion of a call of the receiver with the counter
+					okVal := false
+					for v := range backSlice(st.Val) {
+						if c, ok := v.(*ssa.Call); ok && len(fn.Params) > 0 && c.Call.Value == ssa.Value(fn.Params[0]) {
+							for va := range backSlice(c.Call.Args[0]) {
+								if va == ctr {
+									okVal = true
+								}
+							}
+						}
+					}
+					var inner *natLoop
+					for _, l := range loops {
+						if l.body[b2] && (inner == nil || len(l.body) < len(inner.body)) {
+							inner = l
+						}
+					}
+					every := inner != nil
+					if inner != nil {
+						for _, lt := range inner.latches {
+							if !b2.Dominates(lt) {
+								every = false
+							}
+						}
+					}
+					if okVal && every {
+						r.OK("fdselectfill", key, w.Pos(st.Pos()), "buf[i+1] = byte(fdSelect(i)) on every iteration")
+						r.Floor("fdselectfill", 1)
+						return
+					}
+				}
+			}
+		}
+	}
+	r.Fail("fdselectfill", key, w.Pos(fn.Pos()), "no loop stores the selector's answer for the loop counter i at offset i+1 of the format 0 buffer on every iteration: glyphs whose byte is not written are assigned font dictionary 0", nil)
+	r.Floor("fdselectfill", 1)
+}
+
+// valueReaches: v is ms or a phi/slice of it.
+func valueReaches(v ssa.Value, ms ssa.Value) bool {
+	for d := 0; d < 6; d++ {
+		if v == ms {
+			return true
+		}
+		switch x := v.(type) {
+		case *ssa.Phi:
+			for _, e := range x.Edges {
+				if e == ms {
+					return true
+				}
+			}
+			return false
+		case *ssa.Slice:
+			v = x.X
+		default:
+			return false
+		}
+	}
+	return false
+}
